@@ -129,7 +129,7 @@ class StoredEditsNative(Contract):
     symbolic = False
     has_native = True
     props = ("C03",)
-    bounded_scope = "value map and colour map re-assigned 1-4 times on a stored type (same session and across sessions, fresh dictionaries and the earlier dictionary / map object edited in place); concatenated drillholes renamed / re-planned / re-costed / re-surveyed in a session that does nothing else (both format versions)"
+    bounded_scope = "part labels assigned to a stored curve; values of stored float / integer / boolean / referenced / text / file / comment data assigned again once or twice (same and later sessions); value map and colour map re-assigned 1-4 times on a stored type (same session and across sessions, fresh dictionaries and the earlier dictionary / map object edited in place); concatenated drillholes renamed / re-planned / re-costed / re-surveyed in a session that does nothing else (both format versions)"
 
     def native_cases(self, tier, rng):
         for n in (1, 2, 3, 4):
@@ -138,6 +138,14 @@ class StoredEditsNative(Contract):
                 yield {"kind": "color-map", "n": n, "same_session": same_session}
         for how in ("same-dict-extended", "same-dict-relabelled", "map-object-edited"):
             yield {"kind": "value-map-inplace", "how": how}
+        # values assigned again (and again) on stored data of every class: the last assignment is what a reader sees
+        for cls in ("float", "integer", "boolean", "referenced", "text", "file", "comments"):
+            for how in ("later-session", "same-session-twice", "later-session-twice"):
+                yield {"kind": "values-reassigned", "cls": cls, "how": how}
+        # part labels assigned to a stored curve (they are stored as cells): with and without reading anything back before the close
+        for when in ("creating-session", "later-session"):
+            for read_back in (False, True):
+                yield {"kind": "curve-parts", "when": when, "read_back": read_back}
         for version in (2.0, 2.1):
             for attrs in (["name"], ["planning", "cost"], ["name", "end_of_hole"], ["collar"], ["surveys"], ["surveys", "name"]):
                 yield {"kind": "concatenated-scalars", "version": version, "attrs": attrs}
@@ -250,6 +258,98 @@ class StoredEditsNative(Contract):
                 got = got.T
             if got is None or got.shape != (4, 5) or not np.allclose(got, np.asarray(want)):
                 return f"colour map assignment #{j + 1}: a later reader sees {seen}, the writer held {want} ({case})"
+        return None
+
+    def _values_reassigned(self, case, path):
+        import os
+
+        from geoh5py.objects import Points
+        from geoh5py.workspace import Workspace
+
+        cls = case["cls"]
+        seq = {
+            "float": [np.arange(4.0), np.arange(4.0) + 10, np.arange(4.0) - 5],
+            "integer": [np.arange(4, dtype="int32"), np.arange(4, dtype="int32") + 10, np.arange(4, dtype="int32") - 5],
+            "boolean": [np.array([True, False, True, False]), np.array([False, False, True, True]), np.array([True, True, True, False])],
+            "referenced": [np.array([1, 2, 1, 2], dtype="uint32"), np.array([2, 2, 1, 1], dtype="uint32"), np.array([1, 1, 1, 2], dtype="uint32")],
+            "text": [np.array(["a", "b", "c", "d"]), np.array(["e", "f", "g", "h"]), np.array(["i", "j", "k", "l"])],
+            "file": [b"first blob", b"second, longer blob", b"3rd"],
+            "comments": None,
+        }[cls]
+        with Workspace.create(path) as ws:
+            p = Points.create(ws, name="pts", vertices=np.arange(12.0).reshape(4, 3))
+            if cls == "file":
+                fpath = os.path.join(os.path.dirname(path), "attachment.bin")
+                with open(fpath, "wb") as fh:
+                    fh.write(seq[0])
+                d = p.add_file(fpath)
+            elif cls == "comments":
+                p.add_comment("first", "me")
+                d = p.comments
+            elif cls == "referenced":
+                d = p.add_data({"d": {"values": seq[0], "type": "referenced", "value_map": {1: "A", 2: "B"}}})
+            else:
+                d = p.add_data({"d": {"values": seq[0], **({"type": cls} if cls in ("boolean", "text") else {})}})
+            uid = d.uid
+
+        def assign(ws, k):
+            d = ws.get_entity(uid)[0]
+            if cls == "comments":
+                ws.get_entity("pts")[0].add_comment(f"comment {k}", "me")
+            else:
+                d.values = seq[k]
+
+        def seen():
+            with Workspace(path, mode="r") as ws:
+                d = ws.get_entity(uid)[0]
+                v = d.values
+                if cls == "comments":
+                    return [c["Text"] for c in v]
+                return bytes(v) if cls == "file" else np.asarray(v).tolist()
+
+        steps = {"later-session": [[1]], "same-session-twice": [[1, 2]], "later-session-twice": [[1], [2]]}[case["how"]]
+        n_comments = 1
+        for session in steps:
+            with Workspace(path, mode="r+") as ws:
+                for k in session:
+                    assign(ws, k)
+                    n_comments += 1
+            last = session[-1]
+            got = seen()
+            want = [f"comment {j}" if j else "first" for j in range(n_comments)] if cls == "comments" else (seq[last] if cls == "file" else np.asarray(seq[last]).tolist())
+            if cls == "comments":
+                want = ["first"] + [f"comment {k}" for sess in steps[: steps.index(session) + 1] for k in sess]
+            if got != want:
+                return f"{cls} data: after assigning its values again ({case['how']}, assignment #{last}) a later reader sees {got!r}, the writer held {want!r} ({case})"
+        return None
+
+    def _curve_parts(self, case, path):
+        from geoh5py.objects import Curve
+        from geoh5py.workspace import Workspace
+
+        verts = np.c_[np.arange(6.0), np.zeros(6), np.zeros(6)]
+        parts = np.array([0, 0, 1, 1, 1, 2], dtype="int32")
+        want = [[0, 1], [2, 3], [3, 4]]
+        ws = Workspace.create(path)
+        c = Curve.create(ws, name="line", vertices=verts)
+        uid = c.uid
+        if case["when"] == "later-session":
+            del c
+            ws.close()
+            ws = Workspace(path, mode="r+")
+            c = ws.get_entity(uid)[0]
+        c.parts = parts
+        if case["read_back"]:
+            live = np.asarray(c.cells).tolist()
+            if sorted(map(list, live)) != want:
+                ws.close()
+                return f"a curve given the part labels {parts.tolist()} shows the segments {live} ({case})"
+        del c
+        ws.close()
+        with Workspace(path, mode="r") as back:
+            got = sorted(map(list, np.asarray(back.get_entity(uid)[0].cells).tolist()))
+        if got != want:
+            return f"part labels {parts.tolist()} were assigned to a stored curve; a later reader sees the segments {got}, expected {want} ({case})"
         return None
 
     def _concatenated_scalars(self, case, path):
